@@ -21,7 +21,7 @@ func (r *rng) next() uint64 {
 	z = (z ^ (z >> 27)) * 0x94d049bb133111eb
 	return z ^ (z >> 31)
 }
-func (r *rng) intn(n int) int { return int(r.next() % uint64(n)) }
+func (r *rng) intn(n int) int           { return int(r.next() % uint64(n)) }
 func (r *rng) chance(num, den int) bool { return r.intn(den) < num }
 
 var out *bufio.Writer
@@ -110,7 +110,9 @@ func handle(p []string) (res string) {
 	case "remarshal":
 		return opRemarshal(p[1:])
 	case "clone":
-		return opClone(p[1:])
+		return opClone(p[1:], false)
+	case "clonev":
+		return opClone(p[1:], true)
 	case "pump":
 		return opPump(p[1:])
 	case "wfault":
